@@ -51,6 +51,8 @@ THEOREMS = [
     "Klong.C06.dual_value",
     "Klong.C06.gradient_is_symbolic",
     "Klong.C06.D_is_linear_coefficient",
+    "Klong.C06.gpow_rule",
+    "Klong.C06.gpow_dual",
     "Klong.C06.numgrad_is_central_diff",
     "Klong.C06.numgrad_shape",
     "Klong.C06.numgrad_restores",
@@ -825,16 +827,16 @@ def pars_in(tree, acc=None):
 
 
 def untracked_base_power(tree, form=None, env=None):
-    """a power b^e whose base is a plain number while its exponent is tracked: the base holds no
-    parameter (2^x); or, in [a b]∂g — one parameter at a time, the others stay plain values —
-    the base holds only scalar parameters other than one the exponent depends on ((a^a)^(b-a))"""
+    """a power b^e whose base carries no gradient while its exponent does: the base holds no
+    parameter (2^x); or, in [a b]∂g — one parameter at a time, the others are plain values /
+    untracked tensors — the exponent depends on a parameter the base does not ((w@0)^(c@0))"""
     if not isinstance(tree, list):
         return False
     if tree and tree[0] == "gpow":
         pb, pe = pars_in(tree[1]), pars_in(tree[2])
         if pe and not pb:
             return True
-        if form == "multi-partial" and env is not None and all(env.kind(q) == "S" for q in pb) and (pe - pb):
+        if form == "multi-partial" and (pe - pb):
             return True
     return any(untracked_base_power(a, form, env) for a in tree if isinstance(a, list))
 
@@ -1154,12 +1156,14 @@ def run_case(ctx, model, real, fam, tree, params, forms=None, backends=None, qui
                                         ".jacobian(f;p) differs from the exact Jacobian although p∂f returns it")
                         continue
             if backend == "torch" and not numeric and untracked_base_power(tree, form, env):
-                # torch power() with a plain-number base takes the numpy branch: the tracked exponent is
-                # unwrapped (0-d) or refused (n-d), so the a^b*ln(a) term is lost or the call raises
+                # Power looks only at the BASE for gradient: a plain-number base takes the numpy branch of
+                # torch power() (tracked exponent unwrapped / refused), and an untracked tensor base lets
+                # _e_dyad_power coerce a whole result to integers, detaching the exponent: the a^b*ln(a)
+                # term is lost or the call raises
                 g0 = assemble(val, form, env, m, n) if status == "ok" else None
                 if g0 is None or judge(g0, orc, backend, numeric, nops)[0] != "ok":
-                    ctx.bump("deviation:torch:power:number-base-tracked-exponent")
-                    ctx.oracle_fail("torch:power:number-base-tracked-exponent", case,
+                    ctx.bump("deviation:torch:power:untracked-base-tracked-exponent")
+                    ctx.oracle_fail("torch:power:untracked-base-tracked-exponent", case,
                                     [[float(q) for q in r] for r in orc.jac],
                                     val if status == "exc" else g0.tolist() if g0 is not None else repr(val)[:200],
                                     "c^e with c a plain number and e depending on the differentiated variable: "
